@@ -182,7 +182,7 @@ class GenericStrategy(object):
                                 cou[cnum] += 1 
 
                                 # it is bad now
-                                if cou[cnum] != int(pretval):
+                                if cou[cnum] != pretval:
                                     missed.add(i)
 
                             # none of counters pack was good
@@ -501,7 +501,7 @@ class SingleStepStrategy(object):
                         if len(counters) < cnum + 1:
                             counters.append(0)
                         counters[cnum] += 1 
-                        if counters[cnum] != int(pretval):
+                        if counters[cnum] != pretval:
                             pretval = False
                         cnum += 1
                     if not pretval:
